@@ -40,11 +40,11 @@ SIZES = [(1.0, 1.0, 1.0), (0.5, 1.5, 2.0), (2.5, 0.4, 0.7), (0.01, 0.02, 0.05)]
 
 
 def domains(tier):
-    d2 = [(1, 1, 0), (1, 3, 0), (3, 1, 0), (2, 2, 0), (3, 2, 0)]
-    d3 = [(1, 1, 1), (2, 1, 1), (1, 2, 1), (1, 1, 2), (2, 2, 1), (2, 2, 2)]
+    d2 = [(1, 1, 0), (1, 3, 0), (3, 1, 0), (2, 2, 0), (3, 2, 0), (2, 4, 0)]
+    d3 = [(1, 1, 1), (2, 1, 1), (1, 2, 1), (1, 1, 2), (2, 2, 1), (2, 2, 2), (1, 3, 2)]
     if tier != 'quick':
-        d2 += [(1, 6, 0), (5, 4, 0), (4, 1, 0), (2, 5, 0)]
-        d3 += [(3, 1, 2), (1, 3, 3), (3, 3, 2), (2, 3, 4)]
+        d2 += [(1, 6, 0), (5, 4, 0), (4, 1, 0), (2, 5, 0), (7, 3, 0)]
+        d3 += [(3, 1, 2), (1, 3, 3), (3, 3, 2), (2, 3, 4), (4, 2, 1)]
     return d2 + d3
 
 
@@ -63,8 +63,8 @@ def _admissible(const, mt):
 
 @bound('AssembleGeneral, random non-symmetric element matrices. (A) full product bc{none,empty,first,last,random unsorted,all dofs,list,int32 descending} x bcdiagval{default,0,-2.5,1e3} '
        'x add_constant{none,sparse diag,sparse non-symmetric,dense} x matrix_type{default,csc,csr,coo,csc_array,csr_array,recording dense constructor} on 2x2 (2 dofs/node) and 1x2x1 (1 dof/node); '
-       '(B) 11 domains [quick] / 19 [thorough] up to 3x2 / 2x2x2 (5x4 / 2x3x4), dofs per node 1..3, element matrix real/int/complex x scaling vector positive/ones/with zeros/mixed sign/int/complex, options rotating; '
-       '(C) 250 [quick] / 2500 [thorough] random combinations of everything; each case also: operands unmodified, second response after the caller overwrote the first result')
+       '(B) 13 domains [quick] / 23 [thorough] up to 2x4 / 2x2x2 (7x3 / 2x3x4), dofs per node 1..3, element matrix real/int/complex x scaling vector positive/ones/with zeros/mixed sign/int/complex, options rotating; '
+       '(C) 600 [quick] / 8000 [thorough] random combinations of everything; each case also: operands unmodified, second response after the caller overwrote the first result')
 def general_scatter(r, tier, seed):
     k = 0
     for (dom, ndof) in (((2, 2, 0), 2), ((1, 2, 1), 1)):
@@ -84,7 +84,7 @@ def general_scatter(r, tier, seed):
                                              constkind=const, mtype=mt, seed=seed + k))
     rng = np.random.default_rng(seed + 11)
     doms = domains(tier)
-    for _ in range(250 if tier == 'quick' else 2500):
+    for _ in range(600 if tier == 'quick' else 8000):
         k += 1
         dom = doms[rng.integers(len(doms))]
         bc, bd, const, mt = combos[rng.integers(len(combos))]
@@ -95,7 +95,7 @@ def general_scatter(r, tier, seed):
 MATS = [(1.0, 0.3, 'strain'), (210e9, 0.3, 'stress'), (1e-3, 0.0, 'Stress'), (2.0, -0.4, 'strain'), (5.0, 0.49, 'stress'), (7.0, 0.45, 'STRAIN'), (3.0, 0.25, 'stress')]
 
 
-@bound('AssembleStiffness on 11 domains [quick] / 19 [thorough] x 4 element-size triples (unit, anisotropic, thin, 1e-2 scale; 2-D thickness = third size) x materials '
+@bound('AssembleStiffness on 13 domains [quick] / 23 [thorough] x 4 element-size triples (unit, anisotropic, thin, 1e-2 scale; 2-D thickness = third size) x materials '
        '(E,nu,plane) in {(1,.3,strain),(210e9,.3,stress),(1e-3,0,Stress),(2,-.4,strain),(5,.49,stress),(7,.45,STRAIN),(3,.25,stress)} x x{positive,ones,with exact zeros,mixed sign} '
        'x bc{none,random,first,all,int32,list,empty} x bcdiagval{default = largest element entry,0,1e3} x {keyword, positional pass-through} (rotating through the product), matrix_type{default,csr,coo,csc_array}; clauses: = scatter of the exact element integral, symmetric, PSD (x>=0), '
        '3/6 rigid motions annihilated, affine-field energy = sum x_e V_e eps:D:eps with D from the inverse compliance')
@@ -108,7 +108,7 @@ def stiffness(r, tier, seed):
             for (E, nu, plane) in MATS:
                 if dom[2] > 0 and plane in ('Stress', 'STRAIN', 'stress') and (E, nu) not in ((210e9, 0.3), (5.0, 0.49)):
                     continue      # the plane mode is irrelevant in 3-D: keep one spelling per material
-                for xk in (xks if tier != 'quick' else [xks[k % 4], xks[(k + 1) % 4]]):
+                for xk in (xks + xks if tier != 'quick' else [xks[k % 4], xks[(k + 1) % 4]]):
                     k += 1
                     bc, bd, pos = opts[(k * 29) % len(opts)]
                     run(r, cs.case_stiffness, dict(nx=dom[0], ny=dom[1], nz=dom[2], h=h, E=E, nu=nu, plane=plane, xkind=xk, bckind=bc, bcdiag=bd, positional=pos, mtype=MT4[k % 7 % 4 if k % 7 < 4 else 0], seed=seed + k))
@@ -124,7 +124,7 @@ def mass(r, tier, seed):
         for h in SIZES:
             for rho in (1.0, 2700.0, 1e-3):
                 for ndof in (1, 2, 3):
-                    for rep in range(1 if tier == 'quick' else 2):
+                    for rep in range(1 if tier == 'quick' else 4):
                         k += 1
                         bc, bd, pos = opts[(k * 29) % len(opts)]
                         run(r, cs.case_mass, dict(nx=dom[0], ny=dom[1], nz=dom[2], h=h, rho=rho, ndof=ndof, xkind=xks[k % 3], bckind=bc, bcdiag=bd, positional=pos, mtype=MT4[k % 7 % 4 if k % 7 < 4 else 0], seed=seed + k))
@@ -139,7 +139,7 @@ def poisson(r, tier, seed):
     for dom in domains(tier):
         for h in SIZES:
             for kappa in (1.0, 400.0, 1e-3, 2):
-                for rep in range(2 if tier == 'quick' else 4):
+                for rep in range(2 if tier == 'quick' else 8):
                     k += 1
                     bc, bd, pos = opts[(k * 29) % len(opts)]
                     run(r, cs.case_poisson, dict(nx=dom[0], ny=dom[1], nz=dom[2], h=h, kappa=kappa, xkind=xks[k % 3], bckind=bc, bcdiag=bd, positional=pos, mtype=MT4[k % 7 % 4 if k % 7 < 4 else 0], seed=seed + k))
@@ -160,14 +160,14 @@ def histories(r, tier, seed):
                         run(r, cs.case_history, dict(kind=kind, nx=dom[0], ny=dom[1], nz=dom[2], h=SIZES[k % 4], ndof=ndof, bckind=bc, constkind=const, seed=seed + k))
 
 
-@bound('get_B: dim 2 and 3 (3-D: voigt and standard order), 4 element sizes, 4 random points per case inside the element, shape-function gradients from an own formula, random affine fields; '
+@bound('get_B: dim 2 and 3 (3-D: voigt and standard order), 4 element sizes, 4 random points per case inside the element, 5 [quick] / 60 [thorough] cases per combination, shape-function gradients from an own formula, random affine fields; '
        'get_D: E in {1, 210e9, 1e-3}, nu in {0.3, 0, -0.4, 0.49, 0.25}, mode strings strain/stress/3d/3D/Strain/plane stress')
 def kinematics_constitutive(r, tier, seed):
     k = 0
     for dim in (2, 3):
         for h in SIZES:
             for voigt in ((True, False) if dim == 3 else (True,)):
-                for rep in range(3 if tier == 'quick' else 20):
+                for rep in range(5 if tier == 'quick' else 60):
                     k += 1
                     run(r, cs.case_kinematics, dict(dim=dim, h=h, voigt=voigt, seed=seed + k))
     for E in (1.0, 210e9, 1e-3):
